@@ -4,6 +4,9 @@
 #define MuscleAtomicCounter_h
 
 #include "support/MuscleSupport.h"
+#ifdef MUSCLE_VERIF_HOOKS
+# include "support/VerifSimHooks.h"
+#endif
 
 #ifdef MUSCLE_SINGLE_THREAD_ONLY
   // empty
@@ -73,6 +76,9 @@ public:
      */
    MUSCLE_NODISCARD inline bool AtomicIncrement()
    {
+#ifdef MUSCLE_VERIF_HOOKS
+      if ((g_muscleVerifSim)&&(g_muscleVerifSim->yield)) g_muscleVerifSim->yield(MUSCLE_VERIF_YIELD_ATOMIC_INC, this);
+#endif
 #if defined(MUSCLE_SINGLE_THREAD_ONLY) || !defined(MUSCLE_AVOID_CPLUSPLUS11)
       return (++_count == 1);
 #elif defined(MUSCLE_USE_MUTEXES_FOR_ATOMIC_OPERATIONS)
@@ -112,6 +118,9 @@ public:
      */
    MUSCLE_NODISCARD inline bool AtomicDecrement()
    {
+#ifdef MUSCLE_VERIF_HOOKS
+      if ((g_muscleVerifSim)&&(g_muscleVerifSim->yield)) g_muscleVerifSim->yield(MUSCLE_VERIF_YIELD_ATOMIC_DEC, this);
+#endif
 #if defined(MUSCLE_SINGLE_THREAD_ONLY) || !defined(MUSCLE_AVOID_CPLUSPLUS11)
       return (--_count == 0);
 #elif defined(MUSCLE_USE_MUTEXES_FOR_ATOMIC_OPERATIONS)
@@ -161,6 +170,9 @@ public:
      */
    status_t ConditionalSetCount(int32 fromOldValue, int32 toNewValue)
    {
+#ifdef MUSCLE_VERIF_HOOKS
+      if ((g_muscleVerifSim)&&(g_muscleVerifSim->yield)) g_muscleVerifSim->yield(MUSCLE_VERIF_YIELD_ATOMIC_SET, this);
+#endif
 #if defined(MUSCLE_SINGLE_THREAD_ONLY)
       return NonAtomicConditionalSetCount(fromOldValue, toNewValue);
 #elif defined(MUSCLE_USE_MUTEXES_FOR_ATOMIC_OPERATIONS)
@@ -206,6 +218,9 @@ public:
      */
    MUSCLE_NODISCARD int32 GetCount() const
    {
+#ifdef MUSCLE_VERIF_HOOKS
+      if ((g_muscleVerifSim)&&(g_muscleVerifSim->yield)) g_muscleVerifSim->yield(MUSCLE_VERIF_YIELD_ATOMIC_GET, this);
+#endif
 #if !defined(MUSCLE_SINGLE_THREAD_ONLY) && !defined(MUSCLE_AVOID_CPLUSPLUS11)
       return (int32) _count.load();
 #else
